@@ -1,11 +1,15 @@
 import Bifrost.Model.SigClient
+import Bifrost.Model.SigClientRecv
 import Bifrost.Lemmas.SigClient
+import Bifrost.Lemmas.SigClientRecv
 /-!
 C21 — A signaling send is acknowledged only after the partner received it.
 PARTIAL: this file proves the CLIENT half (for any relay behaviour) — the server half
 (`ack_names_its_message`, `clear_names_its_message`, an ack is relayed only for the message the
 partner was sent in the current epoch) is in Props/C20.lean and Props/C22.lean. The end-to-end
-composition (client ∘ relay ∘ client) is NOT proved; it is exercised by the engines only.
+composition (client ∘ relay ∘ client) is proved in Props/C21E2E.lean (`send_success_delivered`).
+The last section states `Recv` at CALL level (`Model/SigClientRecv.lean`): for arbitrary callers'
+contexts a message is marked processed — hence acknowledged — only by a call that returns it.
 -/
 namespace Bifrost.Props.C21
 open Bifrost Bifrost.SigC
@@ -35,6 +39,68 @@ theorem ack_only_after_delivery (s : State) (h : Reachable s) : acksAreDelivered
 
 example : (run [.opened 2, .sendStart ⟨1, 1⟩, .sendStep 1, .txLoop, .ackMsg 7, .sendStep 1]).sends.all (·.result.isNone) = true ∧
     (run [.opened 2, .sendStart ⟨1, 1⟩, .sendStep 1, .txLoop, .ackMsg 1, .sendStep 1]).sends.all (·.result = some true) = true := by
+  decide
+
+/-! ### `Recv` at call level: a message is acknowledged only after a `Recv` call RETURNED it
+
+`SigC.recvIter` is one iteration of the loop body of `ClientPeerRef.Recv` as the caller sees it
+(critical section, `if recv != nil { return recv, nil }`, `select` on the caller's context);
+`SigC.cstep` / `CReachable` run the tracker together with the list of messages that `Recv` calls
+returned with a nil error, for arbitrary callers (context already cancelled / expired when the
+call is made, cancelled while it waits, long-lived). -/
+
+/-- Whatever the caller's context does, one iteration of `Recv` acts on the tracker exactly as
+the LTS step `recvStep` (so every invariant of the tracker LTS holds for arbitrary callers). -/
+theorem recv_iter_is_tracker_step (s : State) (sel : Sel) : (recvIter s sel).1 = step s .recvStep :=
+  SigClient.recvIter_fst s sel
+
+/-- A `Recv` that returns `context.Canceled` has not touched the tracker: in particular it has not
+marked a message processed (which is what makes the main loop acknowledge it). -/
+theorem recv_canceled_untouched (s : State) (sel : Sel) (h : (recvIter s sel).2 = .canceled) :
+    (recvIter s sel).1 = s := by
+  rw [SigClient.recvIter_fst]
+  exact SigClient.recvIter_not_returned s sel (by intro r; rw [h]; simp)
+
+/-- An iteration marks a message processed exactly when it returns that very message with a nil
+error — also for a caller whose context is already done (`sel = .ctxDone`). -/
+theorem recv_marks_only_what_it_returns (s : State) (sel : Sel) :
+    ((recvIter s sel).1.recvProcessed = true ∧ s.recvProcessed = false) ↔
+      ∃ r, s.recv = some r ∧ s.recvProcessed = false ∧ (recvIter s sel).2 = .returned r := by
+  constructor
+  · rintro ⟨h1, h2⟩
+    rw [SigClient.recvIter_fst] at h1
+    cases hr : s.recv with
+    | none => simp [recvStep, hr, h2] at h1
+    | some r => exact ⟨r, rfl, h2, (SigClient.recvIter_returned_iff s sel r).2 ⟨hr, h2⟩⟩
+  · rintro ⟨r, hr, hp, _⟩
+    refine ⟨?_, hp⟩
+    rw [SigClient.recvIter_fst]
+    simp [recvStep, hr, hp]
+
+/-- The ghost `delivered` of the tracker LTS ("handed to the application") is exactly the list of
+messages that `Recv` calls returned with a nil error. -/
+theorem returned_eq_delivered (c : CallState) (h : CReachable c) :
+    c.returned = c.st.delivered.map (·.1) :=
+  (SigClient.cinv_of_creachable h).ret
+
+/-- Every acknowledgement the client ever put on the wire names a message that a `Recv` call had
+returned to the application before — for all interleavings and all callers' contexts. -/
+theorem ack_only_after_recv_returned (c : CallState) (h : CReachable c) (e k : Nat)
+    (hk : Req.ack e k ∈ c.st.emitted) : ∃ m ∈ c.returned, m.seqno = k := by
+  have hi := SigClient.cinv_of_creachable h
+  obtain ⟨m, hm, hs⟩ := (SigClient.inv_of_reachable hi.reach).ad e k hk
+  refine ⟨m, ?_, hs⟩
+  rw [hi.ret]
+  exact List.mem_map.2 ⟨(m, some e), hm, rfl⟩
+
+/-- Non-vacuity: a caller whose context is already done still gets (and thereby acknowledges) a
+pending message; the same caller with nothing pending returns `Canceled`, and the message that
+arrives afterwards is neither marked processed nor acknowledged. -/
+example :
+    (let c := crun [(.opened 2, .woken), (.recvMsg ⟨7, 7⟩ true true, .woken), (.recvStep, .ctxDone), (.txLoop, .woken)]
+     c.returned = [⟨7, 7⟩] ∧ c.canceled = 0 ∧ c.st.emitted = [.ack 2 7]) ∧
+    (let c := crun [(.opened 2, .woken), (.recvStep, .ctxDone), (.recvMsg ⟨7, 7⟩ true true, .woken), (.txLoop, .woken)]
+     c.returned = [] ∧ c.canceled = 1 ∧ c.st.emitted = [] ∧ c.st.recvProcessed = false) := by
   decide
 
 end Bifrost.Props.C21
